@@ -214,7 +214,22 @@ func c08RunOne(env *h.Env, c *c08Case, tree *h.Tree, idx int, s c08Schedule) (*c
 			return nl.Fn(k, p, fi, err)
 		},
 	}
-	res := h.RunSync(mem, dstDir, h.SyncOpt{Capacity: s.Capacity, Recv: opt, Setup: func(p *h.Pair) {
+	// progress callbacks written the way the repository's own tests write them:
+	// plain variables, no locking. The library calls each of them from one place at
+	// a time; if it ever did not, the race detector reports these writes.
+	var sendProgress, recvProgress, sendCalls, recvCalls int
+	opt.ProgressCb = func(n int, last bool) {
+		recvProgress = n
+		recvCalls++
+		perturb(s.Seed, 11, int64(recvCalls))
+	}
+	sendProg := func(n int, last bool) {
+		sendProgress = n
+		sendCalls++
+		perturb(s.Seed, 10, int64(sendCalls))
+	}
+	defer func() { _, _ = sendProgress, recvProgress }()
+	res := h.RunSync(mem, dstDir, h.SyncOpt{Capacity: s.Capacity, Recv: opt, SendProgFn: sendProg, Setup: func(p *h.Pair) {
 		p.S.BeforeSend = func(n int, _ *types.Packet) error { perturb(s.Seed, 4, int64(n)); return nil }
 		p.S.BeforeRecv = func(n int) error { perturb(s.Seed, 5, int64(n)); return nil }
 		p.R.BeforeSend = func(n int, _ *types.Packet) error { perturb(s.Seed, 6, int64(n)); return nil }
